@@ -525,7 +525,8 @@ NvmModule *nvm_deserialize(const uint8_t *data, uint32_t size) {
         uint32_t sec_offset = le_read_u32(data + dir_off + 4);
         uint32_t sec_size   = le_read_u32(data + dir_off + 8);
 
-        if (sec_offset + sec_size > size) {
+        /* overflow-safe: sec_offset + sec_size may wrap around 2^32 */
+        if (sec_offset > size || sec_size > size - sec_offset) {
             nvm_module_free(mod);
             return NULL;
         }
